@@ -14,6 +14,7 @@ _LEVEL = ('Static necessary-condition checking: each rule is exact on its struct
           'claimed are those whose truth is visible in the shape of the code.')
 
 RULEDOC = {
+ 'SA-SYM.rebase': 'a field packed as `E - self.A` is used arithmetically by the reader of the same struct format only in a sum that contains `+ self.A` (IsoHybrid partition size and partition offset)',
  'SA-SYM.mask': 'a constant mask applied to a field of struct.unpack with a literal format selects at least one bit of that field',
  'SA-TERM.range': 'a counting loop of open() whose body reads nothing from the image is bounded by len() of what was read, not by a length field of the image',
  'SA-PAIR.cwd': 'a working directory saved for a later os.chdir() back is read before the os.chdir() it undoes',
